@@ -52,7 +52,7 @@ func readLocalSymbolTable(r Reader, cat Catalog) (SymbolTable, error) {
 
 // ReadImports reads the imports field of a local symbol table.
 func readImports(r Reader, cat Catalog) ([]SharedSymbolTable, error) {
-	if r.Type() == SymbolType {
+	if r.Type() == SymbolType && !r.IsNull() {
 		val, err := r.SymbolValue()
 		if err != nil {
 			return nil, err
@@ -116,7 +116,7 @@ func readImport(r Reader, cat Catalog) (SharedSymbolTable, error) {
 
 		switch *fieldName.Text {
 		case "name":
-			if r.Type() == StringType {
+			if r.Type() == StringType && !r.IsNull() {
 				val, err := r.StringValue()
 				if err != nil {
 					return nil, err
@@ -124,7 +124,7 @@ func readImport(r Reader, cat Catalog) (SharedSymbolTable, error) {
 				name = *val
 			}
 		case "version":
-			if r.Type() == IntType {
+			if r.Type() == IntType && !r.IsNull() {
 				val, err := r.IntValue()
 				if err != nil {
 					return nil, err
@@ -187,7 +187,7 @@ func readImport(r Reader, cat Catalog) (SharedSymbolTable, error) {
 
 // ReadSymbols reads the symbols from a symbol table.
 func readSymbols(r Reader) ([]string, error) {
-	if r.Type() != ListType {
+	if r.Type() != ListType || r.IsNull() {
 		return nil, nil
 	}
 	if err := r.StepIn(); err != nil {
